@@ -261,6 +261,34 @@ func cachedCopyBody(readers []io.ReadCloser) (io.ReadSeekCloser, error) {
 	return ioutils.NewSmartCachedReadSeekCloser(multiReader(readers), maxCopyMemoryCacheSize)
 }
 
+// crossStorageCopyPutOptions derives the PutObject options of a cross-storage
+// copy so that the destination carries what a same-storage CopyObject stores:
+// metadata per the metadata directive (the website redirect location is never
+// carried over from the source), tags per the tagging directive, and the
+// storage class named on the copy request.
+func crossStorageCopyPutOptions(srcObject *storage.Object, opts *storage.CopyObjectOptions) *storage.PutObjectOptions {
+	putOpts := &storage.PutObjectOptions{}
+	if opts != nil && opts.ReplaceMetadata {
+		putOpts.Metadata = opts.Metadata
+	} else {
+		metadata := srcObject.Metadata
+		metadata.WebsiteRedirectLocation = nil
+		if opts != nil && opts.Metadata != nil {
+			metadata.WebsiteRedirectLocation = opts.Metadata.WebsiteRedirectLocation
+		}
+		putOpts.Metadata = &metadata
+	}
+	if opts != nil && opts.ReplaceTags {
+		putOpts.Tags = opts.Tags
+	} else {
+		putOpts.Tags = srcObject.Tags
+	}
+	if opts != nil {
+		putOpts.StorageClass = opts.StorageClass
+	}
+	return putOpts
+}
+
 func (csm *conditionalStorageMiddleware) CopyObject(ctx context.Context, srcBucket storage.BucketName, srcKey storage.ObjectKey, dstBucket storage.BucketName, dstKey storage.ObjectKey, opts *storage.CopyObjectOptions) (*storage.CopyObjectResult, error) {
 	ctx, span := csm.tracer.Start(ctx, "ConditionalStorageMiddleware.CopyObject")
 	defer span.End()
@@ -297,7 +325,7 @@ func (csm *conditionalStorageMiddleware) CopyObject(ctx context.Context, srcBuck
 	}
 	defer body.Close()
 
-	putResult, err := dstStorage.PutObject(ctx, dstBucket, dstKey, contentType, body, nil, nil)
+	putResult, err := dstStorage.PutObject(ctx, dstBucket, dstKey, contentType, body, nil, crossStorageCopyPutOptions(srcObject, opts))
 	if err != nil {
 		return nil, err
 	}
